@@ -347,6 +347,23 @@ SELECT id, route, target, state, received_at, attempt, next_run_at, payload, hea
 	return out, rows.Err()
 }
 
+// memLeaseIndexGap returns a leased message whose lease id the memory store's lease index does not map to it.
+func (w *qWorld) memLeaseIndexGap() (string, string) {
+	w.mem.mu.Lock()
+	defer w.mem.mu.Unlock()
+	var ids []string
+	for id, e := range w.mem.items {
+		if e != nil && e.State == StateLeased && e.LeaseID != "" && w.mem.leases[e.LeaseID] != id {
+			ids = append(ids, id)
+		}
+	}
+	if len(ids) == 0 {
+		return "", ""
+	}
+	sort.Strings(ids)
+	return ids[0], w.mem.items[ids[0]].LeaseID
+}
+
 // sqliteCounters returns the queue_counters row (queued, leased).
 func (w *qWorld) sqliteCounters() (int, int, error) {
 	var q, l int
